@@ -14,7 +14,10 @@
          pocet_neznamych_ = loclin.unknowns(); ... }
        unknowns_.resize(pocet_neznamych_);
        for (clptr in OD.clusters) if (StandPoint* standpoint = ...) if (test_orientation() && index_orientation()) {...'R'...}    (3a)
-       for (i in PD) { if (b.active_xy() && b.index_y()) {...'X'...'Y'...}  if (b.active_z() && b.index_z()) {...'Z'...} }      (3b)
+       for (i in PD) { if (b.active_xy()) { if (b.index_x()) {...'X'...}  if (b.index_y()) {...'Y'...} }
+                       if (b.active_z() && b.index_z()) {...'Z'...} }                                                           (3b)
+   and, after the adjustment, refine_approx_coordinates() reads the table back:
+       for (i = 1..unknowns_count())  if (unknown_type(i) == 'X') {...x, y of the point...} else if 'Z' {...} else if 'R' {...}   (5)
 
    UNDER CONTRACT (all bodies are copied out of /repo on every run; nothing is copied by hand):
      (1)  LocalNetwork_pe_reset_point    the block of the first PointData walk, one map entry is the parameter `bod`
@@ -24,7 +27,9 @@
      (4)  gv_compose_hdiff / gv_compose_xdiff   COMPOSITION: the real reset body run over every point of a point map whose indices
           hold ARBITRARY stale values of an earlier formation, then a fresh LocalLinearization (maxn = 0) and ONE real
           linearisation step (LocalLinearization::h_diff -- uses index_z; ::xdiff -- uses index_x).
-   The std::map / std::list iteration itself is not lowered: "every element is visited" is by reading.  (2) and (3a) are not
+     (5)  LocalNetwork_refine_unknown    the statement that is the body of the walk of refine_approx_coordinates(), `i` is the parameter
+          (contract in front of its block below)
+   The std::map / std::list iteration itself is not lowered: "every element is visited" is by reading.  (2), (3a) and (5) are not
    braced blocks; they are located by pe_pre.py (see there) and lowered by the extractor's own extract_function.
    dynamic_cast<StandPoint*>(c) is lowered to a TAG TEST: struct Cluster carries a ghost tag, gv_dyn_StandPoint(c) returns c when the
    tag says StandPoint and a null pointer otherwise.
@@ -49,7 +54,8 @@
    HISTORY (F2).  Before commit bc694fa the 'X'/'Y' branch was guarded by `b.active_xy() && b.index_y()` only and then wrote
    unknowns_[b.index_x()-1] unconditionally.  x and y do NOT always get their columns together: LocalLinearization::x / ::xdiff assign
    index_x only, ::y / ::ydiff index_y only.  A free point whose only active xy observation is a Y had index_y != 0, index_x == 0:
-   unknowns_[-1] was written (heap write in front of the vector's buffer; found with this contract, then reached with the real
+   unknowns_[-1] was written (heap write in front of the vector's buffer; found while this contract was written -- on that text the
+   obligation "pointer outside object bounds in self->unknowns_[index_x - 1]" and F2 for X fail, mutations.json m6 -- then reached with the real
    gama-local and a valid document: native_demo.gkf gave exit 139, native_demo.cpp under ASan heap-buffer-overflow WRITE at
    network.cpp:644); the mirror case (only X active) left the column of x without an entry.  F2 is therefore stated for ALL
    combinations of zero / non-zero indices, without any exclusion. */
